@@ -44,6 +44,19 @@ check("C19", "model_checking",
       "state-based (remove deletes only the named path). Trusted: the 20-line set model.",
       "explicit-state BFS on the implementation vs reference model", "DESIGN.md §2 C19")
 
+check("C01", "exploration",
+      "Exhaustive small-scope enumeration of Python programs, smallest first: (a) every expression form the frontend handles "
+      "(depth 1; thorough depth 2) over asymmetric operands, on 16 input vectors; (b) every statement tree with <=4 nodes over "
+      "assign/augassign/unpack/out/if/else/elif/while/for-in/break/continue/return (80 k programs quick, 189 k thorough) on 9 input "
+      "vectors; (c) every signature x call-form product with <=3 plain/default/keyword-only parameters plus closures, nonlocal, "
+      "global, classes, inheritance, aliasing, unpacking forms. Each program is lowered by the real `lang` phase (in-process, one "
+      "forked child per file of 120 functions) and the emitted GIR is executed by a reference interpreter of the documented GIR "
+      "meaning and compared with CPython: output sequence and return value.",
+      "Small scope: a defect needing a larger program is not seen. The GIR interpreter (mc/ref/girvm.py, DESIGN.md section 7) is "
+      "trusted only as far as this check validates it (it agrees with CPython on >99.8% of evaluations; every disagreement was "
+      "adjudicated). Exceptions compared coarsely.",
+      "bounded exhaustive program enumeration, differential execution (CPython vs reference GIR interpreter)", "DESIGN.md §2 C01")
+
 check("C15", "model_checking",
       "Part A: explicit-state BFS on the real Loader for 10 bundle-backed result families (GIR, scope hierarchy, CFG, "
       "bit vectors, stmt status, symbol/state space, symbol graph, defined/used symbols, parameter mapping, decl ids): "
